@@ -766,8 +766,20 @@ Handler::ArgResult
                        noexcept( false)
 {
 
-   auto  p_arg_hdl = mSubGroupArgs.findArg( key);
+   // a key designates one argument of this handler, no matter in which of the
+   // two containers it is stored: an exact match wins over every abbreviation,
+   // and an abbreviation must be unique over both containers
+   auto  p_arg_hdl = mSubGroupArgs.findArg( key, true);
 
+
+   if ((p_arg_hdl == nullptr) && (mArguments.findArg( key, true) == nullptr))
+   {
+      p_arg_hdl = mSubGroupArgs.findArg( key);
+      if ((p_arg_hdl != nullptr) && (mArguments.findArg( key) != nullptr))
+         throw runtime_error( "Long argument abbreviation '"
+                              + format::toString( key)
+                              + "' matches more than one argument");
+   } // end if
 
    if (p_arg_hdl != nullptr)
    {
